@@ -3,7 +3,7 @@ From Coq Require Import ZArith List.
 From Coq Require Extraction ExtrOcamlBasic.
 From WS Require Import Base.Res Base.Bytes Base.GenPrelude Spec.Utf8 Spec.Frame Spec.Legal Proofs.FastOracle Gen.GenUtils Gen.GenAbnf
   Model.Send Model.Xport Model.Recv Model.Conn Model.Script Gen.GenCore Model.App Gen.GenApp Model.PingTimer
-  Base.Str Model.Http Model.Handshake Model.Url Model.Open Model.Connect Spec.HttpReq Spec.AppTrace.
+  Base.Str Model.Http Model.Handshake Model.Url Model.Open Model.Connect Spec.HttpReq Spec.AppTrace Model.Tunnel.
 Extraction Language OCaml.
 Extraction "core_full.ml"
   exn_eqb is_ok Z.add Z.mul Z.div Z.modulo Z.opp Z.abs Z.of_nat Z.to_nat Z.eqb Z.ltb
@@ -19,4 +19,5 @@ Extraction "core_full.ml"
   keepalive ping_args_rejected ping_expired
   ws_connect cs_init read_headers get_handshake_headers request_bytes hs_validate parse_url open_socket
   response_accepts parse_request header_values host_header
-  items close_info.
+  items close_info
+  connect_request tunnel.
